@@ -1170,7 +1170,8 @@ class Load(LocalValue):
         self.volatile = volatile
 
     def __str__(self):
-        return f"{self.ty} {self.name} = load {self.address.name}"
+        load = "volatile load" if self.volatile else "load"
+        return f"{self.ty} {self.name} = {load} {self.address.name}"
 
 
 class Store(Instruction):
@@ -1200,7 +1201,8 @@ class Store(Instruction):
     def __str__(self):
         val = self.value.name
         address = self.address.name
-        return f"store {val}, {address}"
+        store = "volatile store" if self.volatile else "store"
+        return f"{store} {val}, {address}"
 
 
 class InlineAsm(Instruction):
